@@ -41,7 +41,8 @@ def chunks(tier, seed):
 def _profile(dup=False):
     return gen.profile("full", p_dup_key=0.6 if dup else 0.0, p_parallel=0.5, p_compound=0.3, min_fan=3, max_fan=5, max_depth=3,
                        p_history=0.4, p_hist_target=0.35, p_hist_deep=0.7, p_root_on=0.7,
-                       p_handle=0.5, max_states=45, maxit=20000, p_parallel_root=0.5, p_raise=0.04)
+                       p_handle=0.5, max_states=45, maxit=20000, p_parallel_root=0.5, p_raise=0.04,
+                       p_guard_obj=0.5, p_guard=0.4, p_prefix_key=0.25)
 
 
 def _step_digest(st, acts):
